@@ -27,7 +27,10 @@ def run(chk):
         'at exit), store in / extend / pop / del / read one / read all / clear on hosted list and dict, pass as an '
         'argument to a method that returns or raises without keeping it, managed() returns (list, dict, memory block, bundle, view of an existing '
         'object, method_to_typeid), delete proxy, child exits} issued by the director and 1-7 client processes '
-        'against a real ServerProcess; after every step the server table (debug_info ids/refcounts), /dev/shm files '
+        'against a real ServerProcess — in half of the cases against TWO independent ServerProcess managers A and B '
+        '(objects created on either; proxies of objects hosted by one server stored in / read back from / removed from / '
+        'dropped with containers hosted by the other, by the director and by child processes; tables of both servers '
+        'checked after every step); after every step the server table (debug_info ids/refcounts), /dev/shm files '
         'and a call through every live proxy are checked; the same history and the observed tables are replayed '
         'through Core.run Refcount.step + quiesce by `drv refcount`. non-trivial = >= 2 client processes, >= 3 '
         'different operation kinds, history ran to its end; distinct = distinct (case, event list)')
@@ -47,6 +50,8 @@ def _distribution(results):
         clients[case['n_clients']] += 1
         steps[10 * (len(case['steps']) // 10)] += 1
         procs[case['proc_cls']] += 1
+        ops['cases-with-two-servers'] += bool(case.get('two_servers'))
+        ops['cross-server-stores'] += sum(1 for st in case['steps'] if st.get('cross'))
         settle += [rec['obs']['settle_s'] for rec in res.get('steps', []) if rec.get('obs')]
     settle.sort()
     return dict(operations=dict(ops), processes_per_case=dict(clients), steps_per_case_by_10=dict(steps),
